@@ -392,7 +392,7 @@ theorem piecesPlain_of_plainVars {vars : List (Bytes × Val)} (h : PlainVars var
   cases p <;> simp [Piece.plainIn, lookupVar_plain h]
 
 theorem renderNode_piece (E : Env) (go : Go) (tpl : Bytes) (p : Piece) (st : St) (hf : Flat st)
-    (hp : p.plainIn st.ctx.vars = true) :
+    (hg : E.globals = []) (hp : p.plainIn st.ctx.vars = true) :
     renderNode E go tpl p.node st = (p.out st.ctx.vars >>= fun o => pure (o, st)) := by
   cases p with
   | lit s => rfl
@@ -400,23 +400,24 @@ theorem renderNode_piece (E : Env) (go : Go) (tpl : Bytes) (p : Piece) (st : St)
   | pvar v =>
     have he : ∀ ap, evalX E ap (.var v) st = .ok ((lookupVar st.ctx.vars v, []), st) := by
       intro ap
-      simp only [evalX, getMacro_flat hf, getVar_flat hf]
+      simp only [evalX, getMacro_flat hf, getVar_flat hf, hg, getKV, List.find?, Option.map]
       split <;> rfl
     simp only [Piece.node, renderNode, he, Piece.out]
     simp only [ok_bind]
     exact printVal_plain go hp st
 
-theorem renderNodes_pieces (E : Env) (go : Go) (tpl : Bytes) (st : St) (hf : Flat st) : ∀ ps : List Piece,
+theorem renderNodes_pieces (E : Env) (go : Go) (tpl : Bytes) (st : St) (hf : Flat st) (hg : E.globals = []) :
+    ∀ ps : List Piece,
     PiecesPlain st.ctx.vars ps = true →
     renderNodes E go tpl (ps.map Piece.node) st = (outPieces st.ctx.vars ps >>= fun o => pure (o, st))
   | [], _ => rfl
   | p :: ps, hp => by
     simp only [PiecesPlain, List.all_cons, Bool.and_eq_true] at hp
-    simp only [List.map_cons, renderNodes, renderNode_piece E go tpl p st hf hp.1, outPieces]
+    simp only [List.map_cons, renderNodes, renderNode_piece E go tpl p st hf hg hp.1, outPieces]
     cases p.out st.ctx.vars with
     | error e => rfl
     | ok a =>
-      simp only [ok_bind, pure_eq_ok, renderNodes_pieces E go tpl st hf ps hp.2]
+      simp only [ok_bind, pure_eq_ok, renderNodes_pieces E go tpl st hf hg ps hp.2]
       cases outPieces st.ctx.vars ps <;> rfl
 
 theorem lastExtends_pieces : ∀ ps : List Piece, lastExtends (ps.map Piece.node) = none
@@ -434,7 +435,7 @@ theorem renderNodesTop_pieces (ps : List Piece) (vars : List (Bytes × Val)) (hv
     renderNodesTop (ps.map Piece.node) vars = outPieces vars ps := by
   unfold renderNodesTop renderTop
   simp only [tpl_envOf, defaultFuel, run, renderRoot, lastExtends_pieces]
-  rw [renderNodes_pieces _ _ _ _ ⟨rfl, rfl⟩ ps hv]
+  rw [renderNodes_pieces _ _ _ _ ⟨rfl, rfl⟩ rfl ps hv]
   cases outPieces vars ps <;> rfl
 
 
@@ -1942,9 +1943,12 @@ theorem evalX_strip (E : Env) : ∀ (e : Expr) (ap : Bool) (st : St),
     by_cases h : st.ctx.hasVar n = true
     · simp only [h, if_true]; rfl
     · simp only [h]
-      cases st.ctx.getMacro n with
-      | none => rfl
-      | some tm => rfl
+      cases getKV n E.globals with
+      | some g => rfl
+      | none =>
+        cases st.ctx.getMacro n with
+        | none => rfl
+        | some tm => rfl
   | .unary op e, ap, st => by
     simp only [evalX, evalX_strip E e, mapSt_bind, bind_mapSt]
     apply bind_congr_ok
@@ -2066,8 +2070,11 @@ theorem evalX_strip (E : Env) : ∀ (e : Expr) (ap : Bool) (st : St),
     by_cases hd : (name == b "defined") = true
     · simp only [hd, if_true, stripS_hasVar, stripS_getVar]
       by_cases hv : st.ctx.hasVar n = true
-      · simp only [hv, if_true]; rfl
-      · simp only [hv]; rfl
+      · simp only [hv, Bool.true_or, if_true]; rfl
+      · simp only [hv, Bool.false_or]
+        cases getKV n E.globals with
+        | some g => rfl
+        | none => rfl
     · simp only [hd, Bool.false_eq_true, if_false]
       exact test_else_strip E name args _ st (evalX_strip E (.var n) true st) (fun st' => evalArgs_strip E args st')
   | .test (.null) name args, ap, st => by
